@@ -84,7 +84,7 @@ def apply(r, P, m, text):
         pn = [q['name'] for q in procs if q['kind'] == 'proc']
         fe = lambda e: ('call', r.choice(pn), []) if pn and e[0] in ('num', 'hex') and pick() else None
     elif m == 'big-literal':
-        fe = lambda e: ('num', r.choice([2**32, 2**40, 10**19, 10**30, 2**31])) if e[0] in ('num', 'hex') and pick() else None
+        fe = lambda e: r.choice([('num', r.choice([2**32, 2**40, 10**19, 10**30, 2**31])), ('hex', r.choice([2**31, 2**32 - 1, 2**32, 2**36, 2**64 - 1, 2**64, 16**20]))]) if e[0] in ('num', 'hex') and pick() else None
     elif m == 'empty-string':
         fe = lambda e: ('str', '') if e[0] == 'str' and pick() else None
     elif m == 'long-string':
